@@ -216,7 +216,18 @@ func (e *L1) Deliver(msg sdk.Msg) Result { return deliver(e.Ctx, e.Router, msg) 
 
 // Advance moves to a later block: height+1, time+d.
 func (e *L1) Advance(d time.Duration) {
-	e.Ctx = e.Ctx.WithBlockHeight(e.Ctx.BlockHeight() + 1).WithBlockTime(e.Ctx.BlockTime().Add(d))
+	if d < 0 {
+		panic("harness bug: block time must not decrease")
+	}
+	e.AdvanceTo(e.Ctx.BlockTime().Add(d))
+}
+
+// AdvanceTo moves to a later block at time t (ignored if t is before the current time).
+func (e *L1) AdvanceTo(t time.Time) {
+	if t.Before(e.Ctx.BlockTime()) {
+		t = e.Ctx.BlockTime()
+	}
+	e.Ctx = e.Ctx.WithBlockHeight(e.Ctx.BlockHeight() + 1).WithBlockTime(t)
 }
 
 // Dump returns the raw content of every store.
